@@ -182,19 +182,82 @@ func checkC12(c *Ctx, r *Report) {
 						prodTest = x
 					}
 				}
-			case *ast.IfStmt:
-				// if _, ok := g.VnSet[sym]; !ok { panic }
-				if x.Init != nil && strings.Contains(exprString(x.Cond), "!ok") && endsInExit(x.Body) {
-					if as, ok := x.Init.(*ast.AssignStmt); ok && strings.Contains(exprString(as.Rhs[0]), "VnSet[") {
-						ruleless = x.Cond
-					}
-				}
 			}
 			return true
 		})
+		// the rule-less test: a loop over ALL symbols of the grammar in which every nonterminal (and nothing narrower)
+		// is looked up in VnSet and a miss leaves with a diagnostic
+		rulelessWhy := "no loop over the grammar's Symbols"
+		{
+			cf := newCoverFn(f)
+			for _, rs := range cf.rangesOver(nil, func(e ast.Expr) bool { return fieldNamed(info, e, "Symbols") }) {
+				elem := identObj(info, rs.Value)
+				if elem == nil {
+					continue
+				}
+				rulelessWhy = "the loop over the symbols has no `_, ok := VnSet[<symbol>]; !ok → abort` test"
+				ast.Inspect(rs.Body, func(n ast.Node) bool {
+					is, ok := n.(*ast.IfStmt)
+					if !ok || is.Init == nil || !endsInExit(is.Body) {
+						return true
+					}
+					as, ok := is.Init.(*ast.AssignStmt)
+					if !ok || len(as.Lhs) != 2 || len(as.Rhs) != 1 {
+						return true
+					}
+					ix, ok := unparen(as.Rhs[0]).(*ast.IndexExpr)
+					if !ok || !fieldNamed(info, ix.X, "VnSet") || identObj(info, ix.Index) != elem {
+						return true
+					}
+					okObj := identObj(info, as.Lhs[1])
+					un, isNot := unparen(is.Cond).(*ast.UnaryExpr)
+					if okObj == nil || !isNot || un.Op != token.NOT || identObj(info, un.X) != okObj {
+						return true
+					}
+					// guards between the loop and the test: exactly `<symbol>.IsNonTerminator`
+					extra := ""
+					sawNT := false
+					for cur := ast.Node(is); cur != nil && cur != ast.Node(rs.Body); cur = cf.pm[cur] {
+						if par, ok := cf.pm[cur].(*ast.IfStmt); ok && cur == ast.Node(par.Body) {
+							for _, cj := range flattenAnd(par.Cond) {
+								if se, ok := unparen(cj).(*ast.SelectorExpr); ok && fieldNamed(info, se, "IsNonTerminator") && identObj(info, se.X) == elem {
+									sawNT = true
+								} else {
+									extra = exprString(cj)
+								}
+							}
+						}
+					}
+					for _, st := range rs.Body.List {
+						if st.End() <= is.Pos() {
+							if x, ok := st.(*ast.IfStmt); ok && endsInExit(x.Body) {
+								if br, ok := x.Body.List[len(x.Body.List)-1].(*ast.BranchStmt); ok && br.Tok == token.CONTINUE {
+									extra = "continue when " + exprString(x.Cond)
+								}
+							}
+						}
+					}
+					switch {
+					case extra != "":
+						rulelessWhy = "the rule-less test is skipped for some nonterminals (extra condition `" + extra + "`)"
+					case !sawNT:
+						rulelessWhy = "the rule-less test is not applied to the nonterminals"
+					default:
+						rulelessWhy = ""
+						ruleless = is.Cond
+					}
+					return true
+				})
+				if rulelessWhy == "" {
+					break
+				}
+			}
+		}
 		bad := ""
-		if goto_ == nil || lalr == nil || prodTest == nil || ruleless == nil {
-			bad = fmt.Sprintf("anchors missing (ComputeAllGoto %v, ComputeLALR %v, productivity test %v, rule-less nonterminal test %v)", goto_ != nil, lalr != nil, prodTest != nil, ruleless != nil)
+		if goto_ == nil || lalr == nil || prodTest == nil {
+			bad = fmt.Sprintf("anchors missing (ComputeAllGoto %v, ComputeLALR %v, productivity test %v)", goto_ != nil, lalr != nil, prodTest != nil)
+		} else if ruleless == nil {
+			bad = "nonterminals without rules are not all rejected: " + rulelessWhy
 		} else {
 			if !fc.Dominates(prodTest, goto_) || !fc.Dominates(prodTest, lalr) {
 				bad = "the productivity test does not precede the automaton construction on every path"
